@@ -219,7 +219,7 @@ func init() {
 }
 
 // C13_textseq: a program of 3 (C13_textseq4: 4) well-formed commands on ONE text
-// connection, each out of 14 forms that between them produce replies with and without
+// connection, each out of 17 forms that between them produce replies with and without
 // a value, hits and misses, through every reply path (result object recycling,
 // lockWaiter, direct read path). A second connection must still be served afterwards.
 var vfTextSeqForms = [][]string{
@@ -237,6 +237,9 @@ var vfTextSeqForms = [][]string{
 	{"EXISTS", "k"},
 	{"PUSH", "q", "PUSH", "e"},
 	{"TTL", "k"},
+	{"SELECT", "1"},
+	{"SELECT", "255"},
+	{"KEYS", "*"},
 }
 
 func vfH_C13_textseq()  { vfTextSeq(3) }
